@@ -687,6 +687,14 @@ class _:
         return z3.And(b.len == a.len + 1, b[a.len].z == o.scaffold.z, forall(lambda k: z3.Implies(z3.And(0 <= k, k < a.len), b[k].z == a[k].z)))
 
 
+@contract("tola.assembly.build_utils.FoundFragment.scaffold_count", kind="property", properties=("C01",))
+class _:
+    # the number of pieces that hold the contig ("found more than once" is scaffold_count > 1)
+    params = {"self": FF}
+    result = INT
+    pure = staticmethod(lambda o, s: s.scaffolds.len)
+
+
 def _key_of(r):
     return KEY3.sort().mk(r.name, r.start, r.end)
 
